@@ -247,3 +247,55 @@ def record_value(name, fields, values, identifier="tuple"):
 
 def record_frame(name, fields, values, identifier="tuple"):
     return frame(record_value(name, fields, values, identifier))
+
+
+# ---------------------------------------------------------------- token-family trees (the vocabulary of spec/Codec.tla)
+def family(toks, i=0):
+    """tokens (pre-order) -> (token-family tree, next index).  Widths are dropped: only the msgpack family is kept.
+    ext 14 values are opened: {"f": "EXT", "sub": n, "payload": tree}."""
+    t = toks[i]
+    if t.kind == "int":
+        return {"f": "INT"}, i + 1
+    if t.kind == "bool":
+        return {"f": "BOOL"}, i + 1
+    if t.kind == "float":
+        return {"f": "FLOAT"}, i + 1
+    if t.kind == "nil":
+        return {"f": "NIL"}, i + 1
+    if t.kind == "str":
+        return {"f": "STR"}, i + 1
+    if t.kind == "bin":
+        return {"f": "BIN"}, i + 1
+    if t.kind == "array":
+        items = []
+        i += 1
+        for _ in range(t.n):
+            x, i = family(toks, i)
+            items.append(x)
+        return {"f": "ARR", "items": items}, i
+    if t.kind == "map":
+        i += 1
+        for _ in range(2 * t.n):
+            _, i = family(toks, i)
+        return {"f": "MAP"}, i
+    if t.kind == "ext":
+        code, data = t.val
+        if code != EXT:
+            return {"f": "EXT?", "sub": code, "payload": {"f": "NIL"}}, i + 1
+        inner, o = tokenize(data)
+        tree, _ = family(inner)
+        if tree["f"] != "ARR" or len(tree["items"]) != 2 or inner[1].kind != "int":
+            return {"f": "EXT?", "sub": -1, "payload": tree}, i + 1
+        return {"f": "EXT", "sub": inner[1].val, "payload": tree["items"][1]}, i + 1
+    raise ValueError(t.kind)
+
+
+def frame_families(data):
+    """stream bytes -> list of family trees, one per frame"""
+    out = []
+    for off, n, body in frames(data):
+        toks, o = tokenize(body)
+        if o != len(body):
+            raise ValueError("trailing bytes in frame")
+        out.append(family(toks)[0])
+    return out
